@@ -168,7 +168,7 @@ WReplay(c, k, ds, caps, out) ==
      \* p.Entropy = r.Entropy(): one more separator call when a separator function is set (WLEntropyDrawsSeparator)
      LET fin == IF info.sep.isFunc THEN SepCall(ds, c.maxTrials) ELSE [ok |-> TRUE, val |-> <<>>, rest |-> ds]
      IN IF fin.ok /\ fin.rest = <<>> THEN [ok |-> TRUE, toks |-> out] ELSE [ok |-> FALSE, toks |-> out]
-  ELSE IF ds = <<>> \/ ds[1][1] # info.size \/ ds[1][2] >= info.size THEN [ok |-> FALSE, toks |-> out]
+  ELSE IF ds = <<>> \/ ds[1][1] # info.size \/ ds[1][2] >= info.size \/ ds[1][2] >= Len(info.keptSeq) THEN [ok |-> FALSE, toks |-> out]
   ELSE LET w == info.keptSeq[ds[1][2] + 1]
            atom == IF k \in caps THEN info.keptTitleSeq[ds[1][2] + 1] ELSE w
            out1 == IF atom # <<>> THEN Append(out, [v |-> atom, t |-> 1]) ELSE out      \* SkipEmptyAtom
@@ -250,7 +250,8 @@ BuildOut(p, k) ==
 SpecDist == FoldSet(LAMBDA p, f : LET o == BuildOut(p, 0) IN IF o \in DOMAIN f THEN [f EXCEPT ![o] = @ + 1] ELSE f @@ (o :> 1),
                     <<>>, SpecPaths)
 SpecPathCount == Cardinality(CapChoices) * IPow(info.size, info.L) * IPow(Cardinality(SepValues), info.L - 1)
-DistDecidable(c) == info.sep.uniform /\ failW = 0 /\ c.wl.len >= 1 /\ c.size >= 1 /\ SpecPathCount <= 4000
+DistDecidable(c) == info.sep.uniform /\ failW = 0 /\ c.wl.len >= 1 /\ c.size >= 1 /\ c.size = Len(c.kept) /\ Len(c.keptTitles) = Len(c.kept)
+                    /\ SpecPathCount <= 4000
 
 \* ---------------- cellend ----------------
 Weights == {acc[s] : s \in DOMAIN acc}
